@@ -24,7 +24,7 @@ MCLife == {1}
    explored for the keys in LifeKeys; the generations of the other keys stay live.      *)
 CONSTANT LifeKeys
 MCNext == \/ \E k \in Keys : \E t \in TagsOf(k), sz \in Sizes : Insert(k, t, sz)
-          \/ \E k \in Keys : \E g \in TagsOf(k) : Get(k, g) \/ Remove(k, g)
+          \/ \E k \in Keys : \E g \in TagsOf(k) : Get(k, g) \/ Remove(k, g) \/ Peek(k, g)
           \/ Evict \/ Clear
           \/ \E w \in WMs : SetWM(w[1], w[2])
           \/ \E k \in LifeKeys : \E g \in GensOf[k] : Retire(k, g) \/ DropGen(k, g)
